@@ -153,14 +153,20 @@ class LoopTr:
         self.int_alias: dict = {}
         self.root = self.curv = self.contv = self.stackv = self.blv = self.cfrv = None
         new_pair = None
+        other_stmts = []
         for s in body[:self.loop_at]:
             if isinstance(s, ast.AnnAssign) and s.value is not None and _is_name(s.target):
                 tgts, val = [s.target], s.value
             elif isinstance(s, ast.Assign):
                 tgts, val = s.targets, s.value
             else:
+                other_stmts.append(s)
                 continue
             names = [t.id for t in tgts if _is_name(t)]
+            bound = set(self.kind_alias) | set(self.int_alias) | set(new_pair or []) | {
+                self.contv, self.stackv, self.cfrv, self.blv}
+            if any(nm in bound for nm in names):
+                raise _err(s, f'{names} assigned twice before the loop')
             if isinstance(val, ast.Attribute) and _is_name(val.value, 'Token') and len(names) == 1 == len(tgts):
                 self.kind_alias[names[0]] = val.attr
             elif isinstance(val, ast.Constant) and type(val.value) is int and len(names) == 1 == len(tgts):
@@ -171,6 +177,8 @@ class LoopTr:
                 other = next(t for t in tgts if not _is_name(t))
                 if isinstance(other, ast.Attribute) and other.attr == '_value' and _is_name(other.value):
                     self.contv, self._cont_owner = names[0], other.value.id
+                else:
+                    other_stmts.append(s)
             elif isinstance(val, ast.List) and len(val.elts) == 1 and _is_name(val.elts[0]) and len(names) == 1 == len(tgts):
                 self.stackv, self._stack_init = names[0], val.elts[0].id
             elif isinstance(val, ast.Constant) and val.value is False and len(names) == 1 == len(tgts):
@@ -183,6 +191,35 @@ class LoopTr:
                 self.blv, bl_init = names[0], self.int_alias[val.id]
                 if bl_init != 0:
                     raise _err(s, 'block_line does not start as BLOCK_LINE_NONE (0)')
+            else:
+                other_stmts.append(s)
+        # Everything else before the loop must be known not to touch the loop's variables or the token stream: the
+        # docstring, bare annotations, the fields of the root object (name None, line number), and the choice of the
+        # tokenizer (`if isinstance(file_contents, BaseTokenizer): tokenizer = file_contents; tokenizer.<attr> = ...
+        # else: tokenizer = Tokenizer(...)`, whose options translate/c01_kvser.py reads).  Fail closed otherwise.
+        def tokenizer_setup(st_) -> bool:
+            if isinstance(st_, ast.Assign) and len(st_.targets) == 1:
+                t = st_.targets[0]
+                if _is_name(t, self.tokenizer):
+                    return _is_name(st_.value) or (isinstance(st_.value, ast.Call) and _is_name(st_.value.func, 'Tokenizer'))
+                if isinstance(t, ast.Attribute) and _is_name(t.value, self.tokenizer) and t.attr in ('filename', 'error_type'):
+                    return True
+            return False
+        for s in other_stmts:
+            if isinstance(s, ast.Expr) and isinstance(s.value, ast.Constant):
+                continue
+            if isinstance(s, ast.AnnAssign) and s.value is None:
+                continue
+            if isinstance(s, ast.Assign) and all(isinstance(t, ast.Attribute) and _is_name(t.value)
+                                                 and t.value.id in (new_pair or [])
+                                                 and t.attr in ('_folded_name', '_real_name', 'real_name', 'line_num')
+                                                 for t in s.targets) \
+                    and isinstance(s.value, ast.Constant) and (s.value.value is None or type(s.value.value) is int):
+                continue
+            if isinstance(s, ast.If) and isinstance(s.test, ast.Call) and _is_name(s.test.func, 'isinstance') \
+                    and s.body and s.orelse and all(tokenizer_setup(x) for x in list(s.body) + list(s.orelse)):
+                continue
+            raise _err(s, f'statement before the token loop not understood: {ast.unparse(s)[:60]}')
         if new_pair is None:
             raise _err(fn, '`cur_block = root = Keyvalues.__new__(Keyvalues)` not found')
         # root is the one returned after the loop
